@@ -88,6 +88,8 @@ def verify_function(eng, qualname):
             for label, clause in c.labelled(c.ensures, 'post'):
                 t = eval_bool(eng, clause, env, s, old=old)
                 eng.oblige(s, "post:%s" % label, 'post', t, fdef)
+            # vacuity canary: the hypotheses accumulated on (at least one) return path must be satisfiable
+            eng.oblige(s, "cover:return", 'cover', z3.BoolVal(False), fdef, expect_sat=True)
             for exc, cond in c.raises.items():
                 t = eval_bool(eng, cond, f.entry_env, s_with_heap(s, f.entry_heap))
                 eng.oblige(s, "xpost:returns-only-if-not:%s" % exc, 'xpost', z3.Not(t), fdef)
